@@ -22,11 +22,14 @@ MODES = ["Average", "Sum", "Minimum", "Maximum"]
 NAMES = ["Potatos", "North", "Tank 1", "a"]
 SLOT_LT = ["Occupied", "Quantity", "OccupantHash"]
 FUNC_NAMES = ["calc", "update", "limit", "step", "mix", "scale", "check", "pick", "ramp", "tune"]
+# names that differ only where one has '_' (labels print '_' as '.'): no name is a dotted prefix of another one
+# (that shape is the recorded known finding C05-prefix-names) and none ends in 'end' (C05-fend-collision)
+TRICKY_FUNC_NAMES = ["check_o2", "checkco2", "led_1", "led11", "set_a", "setxa", "p_q", "p1q", "mix_2", "mixa2", "a_b_c", "a_bxc"]
 VAR_NAMES = ["a", "b", "c", "t", "u", "v", "w", "x", "y", "z", "acc", "tmp", "val", "lim"]
 
 
 class Gen:
-    def __init__(self, seed, max_funcs=2, depth=3, max_stmts=6, allow=(), calls_focus=False):
+    def __init__(self, seed, max_funcs=2, depth=3, max_stmts=6, allow=(), calls_focus=False, chain=False, tricky_names=False, nested_defs=False):
         self.r = random.Random(seed)
         self.max_funcs, self.depth, self.max_stmts = max_funcs, depth, max_stmts
         self.allow = set(allow)
@@ -36,6 +39,9 @@ class Gen:
         self.features = set()
         self.main_vars = 0  # module-level variables live for the whole program: keep their number small
         self.calls_focus = calls_focus  # small bodies, deeper call graphs (C02 / C06 shapes)
+        self.tricky_names = tricky_names
+        self.nested_defs = nested_defs  # functions may define (and call) a local helper function
+        self.chain = chain  # call chains main -> f_n -> ... -> f_1, callees defined first, inner functions reached only through the chain
 
     # ------------------------------------------------------------- helpers
     def fresh(self, prefix="v"):
@@ -318,15 +324,23 @@ class Gen:
             e0 = f"({e0} + 0)"
         lines.append(f"    {loc} = {e0}")
         vars_.append(loc)
+        if self.nested_defs and r.random() < 0.5:
+            # a helper defined inside this function (no closure variables), called once or twice from the body
+            self.features.add("nested-def")
+            inner = self.fresh("pulse")
+            q = self.fresh("q")
+            lines += [f"    def {inner}({q}):"] + self.write([q], "        ") + ([f"        {self.write([q], '')[0]}"] if r.random() < 0.5 else []) + [""]
+            for _ in range(r.randrange(1, 3)):
+                lines.append(f"    {inner}({self.arg(vars_, 1)})")
         # a tail call hands the callee's result convention to the caller's caller: same kind only
         # (known finding C06-tailcall-result-kind)
         same_kind = [c for c in callees if c[2] == returns]
-        tailcall = bool(same_kind) and r.random() < 0.2
+        tailcall = bool(same_kind) and r.random() < (0.2 if not self.chain else 0.45)
         if tailcall:
             self.funcs = []  # the tail call is the only call of this function (see known finding C06-tailcall-after-call)
-        if callees and not tailcall and r.random() < (0.6 if not self.calls_focus else 0.9):
+        if callees and not tailcall and (self.chain or r.random() < (0.6 if not self.calls_focus else 0.9)):
             # a nested call (the return address must survive it)
-            f = r.choice(callees)
+            f = callees[-1] if self.chain else r.choice(callees)
             self.features.add("nested-call")
             a = ", ".join(self.arg(vars_, 1) for _ in range(f[1]))
             if f[2]:
@@ -335,14 +349,14 @@ class Gen:
                 vars_.append(v)
             else:
                 lines.append(f"    {f[0]}({a})")
-        if r.random() < 0.4 and not tailcall:
+        if r.random() < (0.4 if not self.chain else 0.2) and not tailcall:
             self.features.add("early-return")
             lines += [f"    if {self.cond(vars_, 1)}:"] + self.block(vars_, "        ", 1, r.randrange(0, 2), None, name) + self.ret(vars_, returns, "        ")
-        lines += self.block(vars_, "    ", self.depth - 1 if not self.calls_focus else 1, r.randrange(0, 3 if not self.calls_focus else 2), None, name)
-        shape = r.random()
+        lines += self.block(vars_, "    ", self.depth - 1 if not self.calls_focus else 1, r.randrange(0, 3 if not self.calls_focus else 2) if not self.chain else 0, None, name)
+        shape = r.random() * (0.5 if self.chain else 1.0)  # chain mode: no loops in function tails (4 levels share 16 registers)
         if tailcall:
             self.features.add("tail:call")
-            f = r.choice(same_kind)
+            f = same_kind[-1] if self.chain else r.choice(same_kind)
             a = ", ".join(self.arg(vars_, 1) for _ in range(f[1]))
             lines.append(f"    return {f[0]}({a})" if (returns and f[2]) else f"    {f[0]}({a})")
             if returns and not f[2]:
@@ -411,7 +425,7 @@ class Gen:
         r = self.r
         lines = ["from stationeers_pytrapic.symbols import *", "", "fur = Furnace(d2)", "sens = DaylightSensor(d3)", "heat = WallHeater(d1)"]
         nf = r.randrange(0, self.max_funcs + 1) if not self.calls_focus else r.randrange(2, self.max_funcs + 2)
-        names = r.sample(FUNC_NAMES, nf)
+        names = r.sample(TRICKY_FUNC_NAMES if self.tricky_names else FUNC_NAMES, nf)
         ng = r.randrange(0, 2)
         for _ in range(ng):
             g = self.fresh("g")
@@ -420,25 +434,32 @@ class Gen:
         defs = []
         made = []
         for n in names:
-            nargs = r.randrange(0, 4) if not self.calls_focus else r.randrange(0, 3)
+            nargs = (r.randrange(0, 4) if not self.calls_focus else r.randrange(0, 3)) if not self.chain else r.randrange(0, 2)
             returns = r.random() < 0.6
+            if self.chain and n != names[-1]:
+                # a value-returning function that is called only from other functions: known finding C04-inlined-return-register
+                returns = False
             body = self.function(n, nargs, returns, list(made))
             made.append((n, nargs, returns, self.last_mods_global or any(c[3] for c in made if f"{c[0]}(" in "\n".join(body))))
             defs += body + [""]
         self.funcs = made
         lines += defs
         vars_ = list(self.globals)
-        pre = self.block(vars_, "", 1, r.randrange(0, 3))
+        pre = self.block(vars_, "", 1, r.randrange(0, 3) if not self.chain else 0)
         lines += pre
         lines.append("while True:")
-        body = self.block(vars_, "    ", self.depth if not self.calls_focus else 1, r.randrange(1, self.max_stmts if not self.calls_focus else 3))
+        # chain mode: a tiny main loop (temporaries inside 'while True' live for the whole loop; four call levels share 16 registers)
+        body = self.block(vars_, "    ", self.depth if not self.calls_focus else 1, r.randrange(1, self.max_stmts if not self.calls_focus else 3) if not self.chain else r.randrange(0, 2))
         # every defined function is called at least once from the top-level code (otherwise it may emit nothing)
         for f in made:
+            if self.chain and any(f"{f[0]}(" in l for l in defs if not l.startswith(f"def {f[0]}(")):
+                continue  # reached through another function only
             if not any(f"{f[0]}(" in l for l in pre + body):
                 args = ", ".join(self.arg(vars_, 1) for _ in range(f[1]))
                 body.append(f"    db.Setting = {f[0]}({args})" if f[2] else f"    {f[0]}({args})")
         for f in made:
-            if r.random() < 0.5:
+            inner = self.chain and any(f"{f[0]}(" in l for l in defs if not l.startswith(f"def {f[0]}("))
+            if r.random() < (0.5 if not inner else 0.1):
                 self.features.add("called-twice")
                 args = ", ".join(self.arg(vars_, 1) for _ in range(f[1]))
                 body.append(f"    d1.Setting = {f[0]}({args})" if f[2] else f"    {f[0]}({args})")
